@@ -16,12 +16,12 @@
      thomas_backward_error_float             finite answer + finite pivots + no subnormal product/quotient -> exact row-wise
                                              perturbed system (3u,5u,5u,9u), any matrix
      thomas_dominant_backward_stable_float   the same for dominant matrices: |dT| <= (3u|a|, 5u|b|+9u|a|, 5u|c|)
-     thomas_dominant_float                   dominant + entries scaled (|b|<=2^300, off-diagonals 0 or >=2^-300): never refused for
+     thomas_dominant_float_partial           dominant + entries scaled (|b|<=2^300, off-diagonals 0 or >=2^-300): never refused for
                                              ANY right-hand side; pivot/multiplier conditions discharged from the data
      thomas_backward_error_float_uf          gradual underflow allowed in the right-hand-side part: residual r_i + dr_i,
                                              |dr_i| <= 2^-1075 (1 + 2|a_i| + 3|beta_i|)
-     thomas_dominant_float_uf                dominant + scaled: finite answer -> backward stable up to |dr_i| <= 2^-1075 (1 + 11|b_i|)
-     thomas_dominant_float_data              hypotheses ON THE DATA ONLY (entries finite, 2^-300 <= |b_i| <= 2^300, off-diagonals 0 or
+     thomas_dominant_float_uf_partial        dominant + scaled: finite answer -> backward stable up to |dr_i| <= 2^-1075 (1 + 11|b_i|)
+     thomas_dominant_float                   hypotheses ON THE DATA ONLY (entries finite, 2^-300 <= |b_i| <= 2^300, off-diagonals 0 or
                                              >= 2^-300, |r_i| <= 2^300, 2(|a_i|+|c_i|) <= |b_i|): solved, every x_i finite, backward stable
                                              up to 2^-1075 (1 + 11|b_i|) per row -- no overflow anywhere, underflow accounted for
    Unproved remainder: underflow in the MATRIX part (pivots/multipliers) is excluded (by hypothesis or by the scaling bounds), not
@@ -49,10 +49,10 @@ Theorem thomas_backward_error_float : forall (t : tridiag AF) (r x : list pfloat
   (forall k, (k + 1 < tn t)%nat ->
      no_underflow (FR (nth k (tsup t) 0%float) / FR (tbeta t k))%R /\
      no_underflow (FR (nth k (tsub t) 0%float) * FR (tgamma t (k + 1)))%R) ->
-  (forall k, (k < tn t)%nat -> no_underflow (FR (tnum t r k) / FR (tbeta t k))%R) ->
+  ((forall k, (k < tn t)%nat -> no_underflow (FR (tnum t r k) / FR (tbeta t k))%R) /\
   (forall k, (k + 1 < tn t)%nat ->
      no_underflow (FR (nth k (tsub t) 0%float) * FR (ty t r k))%R /\
-     no_underflow (FR (tgamma t (k + 1)) * FR (nth (k + 1) x 0%float))%R) ->
+     no_underflow (FR (tgamma t (k + 1)) * FR (nth (k + 1) x 0%float))%R)) ->
   length x = tn t /\
   forall i, (i < tn t)%nat -> exists ea eb ec eg : R,
     (Rabs ea <= 3 * u64 /\ Rabs eb <= 5 * u64 /\ Rabs ec <= 5 * u64 /\ Rabs eg <= 9 * u64 /\
@@ -60,7 +60,7 @@ Theorem thomas_backward_error_float : forall (t : tridiag AF) (r x : list pfloat
      + (FR (nth i (tmain t) 0%float) * (1 + eb)
         + FR (nth i (0%float :: tsub t) 0%float) * FR (tgamma t i) * eg) * FR (nth i x 0%float)
      + FR (nth i (tsup t) 0%float) * (1 + ec) * FR (nth (i + 1) x 0%float) = FR (nth i r 0%float))%R.
-Proof. intros t r x W Hn Hr E Fx Fb UM UQ UR. exact (thomas_backward_error_float_lemma t r x W Hn Hr E Fx Fb UM (conj UQ UR)). Qed.
+Proof. intros t r x. exact (thomas_backward_error_float_lemma t r x). Qed.
 Check thomas_backward_error_float : forall (t : tridiag AF) (r x : list pfloat),
   wfT t -> (1 <= tn t)%nat -> length r = tn t -> tsolve (A := AF) t r = Ok x ->
   (forall i, (i < tn t)%nat -> ffinite (nth i x 0%float)) ->
@@ -68,10 +68,10 @@ Check thomas_backward_error_float : forall (t : tridiag AF) (r x : list pfloat),
   (forall k, (k + 1 < tn t)%nat ->
      no_underflow (FR (nth k (tsup t) 0%float) / FR (tbeta t k))%R /\
      no_underflow (FR (nth k (tsub t) 0%float) * FR (tgamma t (k + 1)))%R) ->
-  (forall k, (k < tn t)%nat -> no_underflow (FR (tnum t r k) / FR (tbeta t k))%R) ->
+  ((forall k, (k < tn t)%nat -> no_underflow (FR (tnum t r k) / FR (tbeta t k))%R) /\
   (forall k, (k + 1 < tn t)%nat ->
      no_underflow (FR (nth k (tsub t) 0%float) * FR (ty t r k))%R /\
-     no_underflow (FR (tgamma t (k + 1)) * FR (nth (k + 1) x 0%float))%R) ->
+     no_underflow (FR (tgamma t (k + 1)) * FR (nth (k + 1) x 0%float))%R)) ->
   length x = tn t /\
   forall i, (i < tn t)%nat -> exists ea eb ec eg : R,
     (Rabs ea <= 3 * u64 /\ Rabs eb <= 5 * u64 /\ Rabs ec <= 5 * u64 /\ Rabs eg <= 9 * u64 /\
@@ -112,10 +112,10 @@ Theorem thomas_dominant_backward_stable_float : forall (t : tridiag AF) (r x : l
   (forall k, (k + 1 < tn t)%nat ->
      no_underflow (FR (nth k (tsup t) 0%float) / FR (tbeta t k))%R /\
      no_underflow (FR (nth k (tsub t) 0%float) * FR (tgamma t (k + 1)))%R) ->
-  (forall k, (k < tn t)%nat -> no_underflow (FR (tnum t r k) / FR (tbeta t k))%R) ->
+  ((forall k, (k < tn t)%nat -> no_underflow (FR (tnum t r k) / FR (tbeta t k))%R) /\
   (forall k, (k + 1 < tn t)%nat ->
      no_underflow (FR (nth k (tsub t) 0%float) * FR (ty t r k))%R /\
-     no_underflow (FR (tgamma t (k + 1)) * FR (nth (k + 1) x 0%float))%R) ->
+     no_underflow (FR (tgamma t (k + 1)) * FR (nth (k + 1) x 0%float))%R)) ->
   length x = tn t /\
   forall i, (i < tn t)%nat -> exists da db dc : R,
     (Rabs da <= 3 * u64 * Rabs (FR (nth i (0%float :: tsub t) 0%float)) /\
@@ -124,7 +124,7 @@ Theorem thomas_dominant_backward_stable_float : forall (t : tridiag AF) (r x : l
      (FR (nth i (0%float :: tsub t) 0%float) + da) * FR (nth i (0%float :: x) 0%float)
      + (FR (nth i (tmain t) 0%float) + db) * FR (nth i x 0%float)
      + (FR (nth i (tsup t) 0%float) + dc) * FR (nth (i + 1) x 0%float) = FR (nth i r 0%float))%R.
-Proof. intros t r x W Hn Hr D E Fx Fb UM UQ UR. exact (thomas_dominant_backward_stable_float_lemma t r x W Hn Hr D E Fx Fb UM (conj UQ UR)). Qed.
+Proof. intros t r x. exact (thomas_dominant_backward_stable_float_lemma t r x). Qed.
 Check thomas_dominant_backward_stable_float : forall (t : tridiag AF) (r x : list pfloat),
   wfT t -> (1 <= tn t)%nat -> length r = tn t ->
   (forall i, (i < tn t)%nat ->
@@ -136,10 +136,10 @@ Check thomas_dominant_backward_stable_float : forall (t : tridiag AF) (r x : lis
   (forall k, (k + 1 < tn t)%nat ->
      no_underflow (FR (nth k (tsup t) 0%float) / FR (tbeta t k))%R /\
      no_underflow (FR (nth k (tsub t) 0%float) * FR (tgamma t (k + 1)))%R) ->
-  (forall k, (k < tn t)%nat -> no_underflow (FR (tnum t r k) / FR (tbeta t k))%R) ->
+  ((forall k, (k < tn t)%nat -> no_underflow (FR (tnum t r k) / FR (tbeta t k))%R) /\
   (forall k, (k + 1 < tn t)%nat ->
      no_underflow (FR (nth k (tsub t) 0%float) * FR (ty t r k))%R /\
-     no_underflow (FR (tgamma t (k + 1)) * FR (nth (k + 1) x 0%float))%R) ->
+     no_underflow (FR (tgamma t (k + 1)) * FR (nth (k + 1) x 0%float))%R)) ->
   length x = tn t /\
   forall i, (i < tn t)%nat -> exists da db dc : R,
     (Rabs da <= 3 * u64 * Rabs (FR (nth i (0%float :: tsub t) 0%float)) /\
@@ -174,8 +174,11 @@ Qed.
 (* hypotheses ON THE DATA for the matrix part: all entries finite, |main_i| <= 2^300, every off-diagonal entry zero or at least
    2^-300 in magnitude, strict diagonal dominance with the rounding margin.  Then, for EVERY right-hand side (of any size n):
    no pivot and no multiplier overflows or underflows, solve never refuses, and if the answer is finite and no product/quotient
-   of the right-hand-side part is subnormal, the answer is backward stable. *)
-Theorem thomas_dominant_float : forall (t : tridiag AF) (r : list pfloat),
+   of the right-hand-side part is subnormal, the answer is backward stable.
+   PARTIAL (full statement: hypotheses on the data only, conclusion "solved, finite, backward stable"): finiteness of the answer and
+   absence of underflow in the right-hand-side part remain hypotheses here; thomas_dominant_float below is the full statement for
+   matrices dominant by the factor 2, thomas_dominant_float_uf_partial removes the underflow hypothesis for this class. *)
+Theorem thomas_dominant_float_partial : forall (t : tridiag AF) (r : list pfloat),
   wfT t -> (1 <= tn t)%nat -> length r = tn t ->
   ((forall i, (i < tn t)%nat -> ffinite (nth i (tmain t) 0%float)) /\
    (forall i, (i + 1 < tn t)%nat -> ffinite (nth i (tsub t) 0%float) /\ ffinite (nth i (tsup t) 0%float))) ->
@@ -188,10 +191,10 @@ Theorem thomas_dominant_float : forall (t : tridiag AF) (r : list pfloat),
       < Rabs (FR (nth i (tmain t) 0%float)) * (1 - u64))%R) ->
   exists x, tsolve (A := AF) t r = Ok x /\ length x = tn t /\
     ((forall i, (i < tn t)%nat -> ffinite (nth i x 0%float)) ->
-  (forall k, (k < tn t)%nat -> no_underflow (FR (tnum t r k) / FR (tbeta t k))%R) ->
+  ((forall k, (k < tn t)%nat -> no_underflow (FR (tnum t r k) / FR (tbeta t k))%R) /\
   (forall k, (k + 1 < tn t)%nat ->
      no_underflow (FR (nth k (tsub t) 0%float) * FR (ty t r k))%R /\
-     no_underflow (FR (tgamma t (k + 1)) * FR (nth (k + 1) x 0%float))%R) ->
+     no_underflow (FR (tgamma t (k + 1)) * FR (nth (k + 1) x 0%float))%R)) ->
   forall i, (i < tn t)%nat -> exists da db dc : R,
     (Rabs da <= 3 * u64 * Rabs (FR (nth i (0%float :: tsub t) 0%float)) /\
      Rabs db <= 5 * u64 * Rabs (FR (nth i (tmain t) 0%float)) + 9 * u64 * Rabs (FR (nth i (0%float :: tsub t) 0%float)) /\
@@ -199,10 +202,8 @@ Theorem thomas_dominant_float : forall (t : tridiag AF) (r : list pfloat),
      (FR (nth i (0%float :: tsub t) 0%float) + da) * FR (nth i (0%float :: x) 0%float)
      + (FR (nth i (tmain t) 0%float) + db) * FR (nth i x 0%float)
      + (FR (nth i (tsup t) 0%float) + dc) * FR (nth (i + 1) x 0%float) = FR (nth i r 0%float))%R).
-Proof. intros t r W Hn Hr HF HS HD.
-  destruct (thomas_dominant_float_lemma t r W Hn Hr HF HS HD) as (x & E & Lx & St).
-  exists x. split; [exact E|]. split; [exact Lx|]. intros Fx UQ UR. exact (St Fx (conj UQ UR)). Qed.
-Check thomas_dominant_float : forall (t : tridiag AF) (r : list pfloat),
+Proof. intros t r. exact (thomas_dominant_float_partial_lemma t r). Qed.
+Check thomas_dominant_float_partial : forall (t : tridiag AF) (r : list pfloat),
   wfT t -> (1 <= tn t)%nat -> length r = tn t ->
   ((forall i, (i < tn t)%nat -> ffinite (nth i (tmain t) 0%float)) /\
    (forall i, (i + 1 < tn t)%nat -> ffinite (nth i (tsub t) 0%float) /\ ffinite (nth i (tsup t) 0%float))) ->
@@ -215,10 +216,10 @@ Check thomas_dominant_float : forall (t : tridiag AF) (r : list pfloat),
       < Rabs (FR (nth i (tmain t) 0%float)) * (1 - u64))%R) ->
   exists x, tsolve (A := AF) t r = Ok x /\ length x = tn t /\
     ((forall i, (i < tn t)%nat -> ffinite (nth i x 0%float)) ->
-  (forall k, (k < tn t)%nat -> no_underflow (FR (tnum t r k) / FR (tbeta t k))%R) ->
+  ((forall k, (k < tn t)%nat -> no_underflow (FR (tnum t r k) / FR (tbeta t k))%R) /\
   (forall k, (k + 1 < tn t)%nat ->
      no_underflow (FR (nth k (tsub t) 0%float) * FR (ty t r k))%R /\
-     no_underflow (FR (tgamma t (k + 1)) * FR (nth (k + 1) x 0%float))%R) ->
+     no_underflow (FR (tgamma t (k + 1)) * FR (nth (k + 1) x 0%float))%R)) ->
   forall i, (i < tn t)%nat -> exists da db dc : R,
     (Rabs da <= 3 * u64 * Rabs (FR (nth i (0%float :: tsub t) 0%float)) /\
      Rabs db <= 5 * u64 * Rabs (FR (nth i (tmain t) 0%float)) + 9 * u64 * Rabs (FR (nth i (0%float :: tsub t) 0%float)) /\
@@ -226,8 +227,8 @@ Check thomas_dominant_float : forall (t : tridiag AF) (r : list pfloat),
      (FR (nth i (0%float :: tsub t) 0%float) + da) * FR (nth i (0%float :: x) 0%float)
      + (FR (nth i (tmain t) 0%float) + db) * FR (nth i x 0%float)
      + (FR (nth i (tsup t) 0%float) + dc) * FR (nth (i + 1) x 0%float) = FR (nth i r 0%float))%R).
-Print Assumptions thomas_dominant_float.
-Example thomas_dominant_float_nonvacuous :
+Print Assumptions thomas_dominant_float_partial.
+Example thomas_dominant_float_partial_nonvacuous :
   let t := exT_t in let r := exT_r in let x := exT_x in
   wfT t /\ (1 <= tn t)%nat /\ length r = tn t /\
   ((forall i, (i < tn t)%nat -> ffinite (nth i (tmain t) 0%float)) /\
@@ -302,9 +303,10 @@ Proof.
   split; [exact Fb|]. split; [exact UM|exact (proj2 exU_underflows)].
 Qed.
 
-(* dominant + scaled matrices (hypotheses on the data as in thomas_dominant_float): a finite answer is backward stable up to the
-   absolute residual |dr_i| <= 2^-1075 (1 + 11 |b_i|) -- no condition on the right-hand-side part of the computation is left *)
-Theorem thomas_dominant_float_uf : forall (t : tridiag AF) (r : list pfloat),
+(* dominant + scaled matrices (hypotheses on the data as in thomas_dominant_float_partial): a finite answer is backward stable up to the
+   absolute residual |dr_i| <= 2^-1075 (1 + 11 |b_i|) -- no condition on the right-hand-side part of the computation is left.
+   PARTIAL: finiteness of the answer remains a hypothesis (for the margin (1+u)/(1-u) the computed x is not bounded by the data). *)
+Theorem thomas_dominant_float_uf_partial : forall (t : tridiag AF) (r : list pfloat),
   wfT t -> (1 <= tn t)%nat -> length r = tn t ->
   ((forall i, (i < tn t)%nat -> ffinite (nth i (tmain t) 0%float)) /\
    (forall i, (i + 1 < tn t)%nat -> ffinite (nth i (tsub t) 0%float) /\ ffinite (nth i (tsup t) 0%float))) ->
@@ -325,8 +327,8 @@ Theorem thomas_dominant_float_uf : forall (t : tridiag AF) (r : list pfloat),
      (FR (nth i (0%float :: tsub t) 0%float) + da) * FR (nth i (0%float :: x) 0%float)
      + (FR (nth i (tmain t) 0%float) + db) * FR (nth i x 0%float)
      + (FR (nth i (tsup t) 0%float) + dc) * FR (nth (i + 1) x 0%float) = FR (nth i r 0%float) + dr)%R).
-Proof. intros t r. exact (thomas_dominant_float_uf_lemma t r). Qed.
-Check thomas_dominant_float_uf : forall (t : tridiag AF) (r : list pfloat),
+Proof. intros t r. exact (thomas_dominant_float_uf_partial_lemma t r). Qed.
+Check thomas_dominant_float_uf_partial : forall (t : tridiag AF) (r : list pfloat),
   wfT t -> (1 <= tn t)%nat -> length r = tn t ->
   ((forall i, (i < tn t)%nat -> ffinite (nth i (tmain t) 0%float)) /\
    (forall i, (i + 1 < tn t)%nat -> ffinite (nth i (tsub t) 0%float) /\ ffinite (nth i (tsup t) 0%float))) ->
@@ -347,8 +349,8 @@ Check thomas_dominant_float_uf : forall (t : tridiag AF) (r : list pfloat),
      (FR (nth i (0%float :: tsub t) 0%float) + da) * FR (nth i (0%float :: x) 0%float)
      + (FR (nth i (tmain t) 0%float) + db) * FR (nth i x 0%float)
      + (FR (nth i (tsup t) 0%float) + dc) * FR (nth (i + 1) x 0%float) = FR (nth i r 0%float) + dr)%R).
-Print Assumptions thomas_dominant_float_uf.
-Example thomas_dominant_float_uf_nonvacuous :
+Print Assumptions thomas_dominant_float_uf_partial.
+Example thomas_dominant_float_uf_partial_nonvacuous :
   let t := exT_t in let r := exU_r in let x := exU_x in
   wfT t /\ (1 <= tn t)%nat /\ length r = tn t /\
   ((forall i, (i < tn t)%nat -> ffinite (nth i (tmain t) 0%float)) /\
@@ -371,7 +373,7 @@ Qed.
 (* HYPOTHESES ON THE DATA ONLY, every size n: entries finite, 2^-300 <= |main_i| <= 2^300, off-diagonal entries zero or >= 2^-300,
    |r_i| <= 2^300, dominance by the factor 2.  Then solve answers, every x_i is finite (no intermediate overflows: |y_k| <= 2^603,
    |x_k| <= 2^605, shown by induction along the two sweeps), and x is backward stable up to 2^-1075 (1 + 11|b_i|) per row. *)
-Theorem thomas_dominant_float_data : forall (t : tridiag AF) (r : list pfloat),
+Theorem thomas_dominant_float : forall (t : tridiag AF) (r : list pfloat),
   wfT t -> (1 <= tn t)%nat -> length r = tn t ->
   ((forall i, (i < tn t)%nat -> ffinite (nth i (tmain t) 0%float)) /\
    (forall i, (i + 1 < tn t)%nat -> ffinite (nth i (tsub t) 0%float) /\ ffinite (nth i (tsup t) 0%float))) ->
@@ -394,8 +396,8 @@ Theorem thomas_dominant_float_data : forall (t : tridiag AF) (r : list pfloat),
      (FR (nth i (0%float :: tsub t) 0%float) + da) * FR (nth i (0%float :: x) 0%float)
      + (FR (nth i (tmain t) 0%float) + db) * FR (nth i x 0%float)
      + (FR (nth i (tsup t) 0%float) + dc) * FR (nth (i + 1) x 0%float) = FR (nth i r 0%float) + dr)%R.
-Proof. intros t r W Hn Hr HF HS Bl SD Fr. exact (thomas_dominant_float_data_lemma t Hn HF HS Bl SD r W Hr Fr). Qed.
-Check thomas_dominant_float_data : forall (t : tridiag AF) (r : list pfloat),
+Proof. intros t r W Hn Hr HF HS Bl SD Fr. exact (thomas_dominant_float_lemma t Hn HF HS Bl SD r W Hr Fr). Qed.
+Check thomas_dominant_float : forall (t : tridiag AF) (r : list pfloat),
   wfT t -> (1 <= tn t)%nat -> length r = tn t ->
   ((forall i, (i < tn t)%nat -> ffinite (nth i (tmain t) 0%float)) /\
    (forall i, (i + 1 < tn t)%nat -> ffinite (nth i (tsub t) 0%float) /\ ffinite (nth i (tsup t) 0%float))) ->
@@ -418,9 +420,9 @@ Check thomas_dominant_float_data : forall (t : tridiag AF) (r : list pfloat),
      (FR (nth i (0%float :: tsub t) 0%float) + da) * FR (nth i (0%float :: x) 0%float)
      + (FR (nth i (tmain t) 0%float) + db) * FR (nth i x 0%float)
      + (FR (nth i (tsup t) 0%float) + dc) * FR (nth (i + 1) x 0%float) = FR (nth i r 0%float) + dr)%R.
-Print Assumptions thomas_dominant_float_data.
+Print Assumptions thomas_dominant_float.
 (* met by the matrix above with the UNDERFLOWING right-hand side r = [2^-1060; 0; 0] *)
-Example thomas_dominant_float_data_nonvacuous :
+Example thomas_dominant_float_nonvacuous :
   let t := exT_t in let r := exU_r in
   wfT t /\ (1 <= tn t)%nat /\ length r = tn t /\
   ((forall i, (i < tn t)%nat -> ffinite (nth i (tmain t) 0%float)) /\
